@@ -288,6 +288,7 @@ def sequential(ctx, eng, nseq, probe):
         def on_hang(run, roles):
             hung["stacks"] = run.hung
             hung["rest"] = bytes(p._buffer)
+            hung["open_op"] = dict(h.ops[-1]) if h.ops else {}
             if p._lock.acquire(timeout=1.0):
                 p._closed = True
                 p._cv.notify_all()
@@ -298,11 +299,16 @@ def sequential(ctx, eng, nseq, probe):
         bad = box["bad"]
         if hung:
             ctx.count("sequential_ops_blocked_for_good")
-            if hung["rest"] != state[0]:
-                bad = ("final buffer content differs from the reference (loss/duplication/reorder)", len(h.ops))
+            last = hung["open_op"]
+            frames = " ".join(fr for _, st in hung["stacks"] for fr in st)
+            in_wait = "Condition.wait" in frames and "BufferedPipe.read" in frames
+            # Logical, not timed: the single thread sits in cv.wait of an untimed read, which it only
+            # enters when the real buffer is empty and not closed - while the reference (exact for a
+            # sequential history) says data is buffered or the pipe is closed.
+            if in_wait and last.get("k") == "read" and last.get("e") == INF and (len(state[0]) > 0 or state[1]):
+                bad = ("read blocks although the reference holds data or is closed (bytes lost)", len(h.ops) - 1)
             else:
-                ctx.inconclusive("sequential op blocked although the buffer matches the reference: %r %r"
-                                 % (hung["stacks"], fmt_ops(h.ops)))
+                ctx.inconclusive("sequential op looked blocked: %r %r" % (hung["stacks"], fmt_ops(h.ops)))
                 bad = None
         elif run.leaked:
             ctx.inconclusive("sequential worker never returned: %r" % (fmt_ops(h.ops),))
@@ -500,7 +506,7 @@ def run(ctx):
                 return
         sequential(ctx, eng, ctx.pick(1500, 30000), probe)
         t_core = ctx.pick(9, 150)
-        t_end = ctx.pick(16, 420)
+        t_end = ctx.pick(16, 380)
 
         def perturbed(wl, n):
             for _ in range(n):
